@@ -48,6 +48,43 @@ def resOf : SRes → Res
 def absS (w : World) (f : OFile) : SStream := ⟨absF w f, f.rd, f.wr, w.h.r, w.h.w⟩
 
 
+/-! ### "every switch of direction goes through a seek" — a condition on the CALLS alone
+
+C11 7.21.5.3 p7: on an update stream output shall not be directly followed by input without an intervening `fflush` or
+positioning call, and input shall not be directly followed by output without an intervening positioning call (unless the
+input met end-of-file). `Pend` follows a list of calls and records, conservatively and without looking at any state, which
+direction may still be "open"; `Disciplined` says that no call of the list switches the direction while one is open.
+Only `seekset(o)` with `0 ≤ o ≤ maxOff` is counted as a positioning call (it cannot fail); `flush` closes an open output. -/
+
+inductive Pend | none | out | inp
+  deriving DecidableEq, Repr
+
+def inRange (maxOff : Nat) (o : Int64) : Bool := decide (0 ≤ o.toInt) && decide (o.toInt.toNat ≤ maxOff)
+
+def Pend.next (maxOff : Nat) (p : Pend) : Op → Pend
+  | .writeS _ | .writeB _ => .out
+  | .readS _ | .readB _ | .readln => .inp
+  | .seekSet (some o) => if inRange maxOff o then .none else p
+  | .flush => if p = .out then .none else p
+  | _ => p
+
+def Pend.allows (p : Pend) : Op → Bool
+  | .writeS _ | .writeB _ => p != .inp
+  | .readS _ | .readB _ | .readln => p != .out
+  | _ => true
+
+def Disciplined (maxOff : Nat) : Pend → List Op → Prop
+  | _, [] => True
+  | p, op :: ops => p.allows op = true ∧ Disciplined maxOff (p.next maxOff op) ops
+
+instance Disciplined.dec (maxOff : Nat) : (p : Pend) → (ops : List Op) → Decidable (Disciplined maxOff p ops)
+  | _, [] => isTrue trivial
+  | p, op :: ops => @instDecidableAnd _ _ _ (Disciplined.dec maxOff (p.next maxOff op) ops)
+
+/-- what `Pend` knows about the stream's own record of the last transfer -/
+def Approx (p : Pend) (l : LastIO) : Prop := (l = .output → p = .out) ∧ (l = .input → p = .inp)
+
+
 /-- `StreamOp` as a test (driver) -/
 def isStreamOp : Op → Bool
   | .readS (some _) | .readB (some _) | .readln | .flush | .position => true
